@@ -16,7 +16,7 @@ inductive PanicKind
 
 /-- Source file of /repo/src in which the panicking construct lives. -/
 inductive SrcFile
-  | smbus | traits | control | proto | base | request | response
+  | smbus | traits | control | proto | base | request | response | vendor
   deriving DecidableEq, Repr, Inhabited
 
 structure Panic where
